@@ -1,24 +1,220 @@
 import HypatiaModel.Concurrency
+import HypatiaModel.ConcurrencyIndex
 import Driver.Sess
 namespace Driver.ConcurrencyS
-open Hyp.Concurrency
+open Hyp Hyp.Concurrency Hyp.CIdx
+
+/-!
+Session `concurrency`: the abstract commit log (which operations must be visible for each
+combination of commit outcomes) **and** the object-level replay of the same case: the base
+operations run in transaction 0, `a` / `b` run as transactions 1 / 2 on the snapshot taken at
+`begin`, the second `commit` merges (`commitSecond`), `check` prints the merged heaps.
+
+Document specification of the harness (`props/c09.py: make_doc`): `f kw c t u` with `-` = attribute
+absent; `f` = field value, `kw` = bit mask over keywords 0‥4, `c` = facet path(s) out of the six
+configured facets `a, a:b, a:b:c, d, d:e, f` (numbered 0‥5): path `c % 6`, and `(c / 7) % 6` when
+`c ≥ 7`; `t`, `u` = text seeds (not modelled at object level).
+-/
 
 def alt (l : CLog) (a b : Bool) : String :=
   s!"{if a then "ok" else "conflict"},{if b then "ok" else "conflict"}:" ++
     String.join ((l.visible a b).map fun k => s!" {k}")
 
-def step (l : CLog) (toks : List String) : CLog × String :=
-  match toks with
-  | "cfg" :: _ => (l, "ok")
-  | "base" :: k :: _ => match k.toNat? with | some k => ({ l with base := l.base ++ [k] }, "ok") | none => (l, "bad-op")
-  | ["begin"] => (l, "ok")
-  | "a" :: k :: _ => match k.toNat? with | some k => ({ l with opsA := l.opsA ++ [k] }, "ok") | none => (l, "bad-op")
-  | "b" :: k :: _ => match k.toNat? with | some k => ({ l with opsB := l.opsB ++ [k] }, "ok") | none => (l, "bad-op")
-  | ["commit", "a"] => ({ l with order := l.order ++ [.a] }, "any")
-  | ["commit", "b"] => ({ l with order := l.order ++ [.b] }, "any")
-  | ["check"] =>
-    (l, "eff " ++ " ; ".intercalate [alt l true true, alt l true false, alt l false true, alt l false false])
-  | _ => (l, "bad-op")
+structure St where
+  log : CLog := {}
+  thr : Nat := 2
+  present : List String := ["i0", "i1", "i2", "i3", "i4"]
+  begun : Bool := false
+  f0 : FTx Int := {}
+  fA : FTx Int := {}
+  fB : FTx Int := {}
+  k0 : KTx Int := {}
+  kA : KTx Int := {}
+  kB : KTx Int := {}
+  c0 : KTx Int := {}
+  cA : KTx Int := {}
+  cB : KTx Int := {}
 
-def sess : Sess := { σ := CLog, st := {}, step := step }
+/-- the prefix expansion of facet path `j` (indices into `a, a:b, a:b:c, d, d:e, f`) -/
+def facetPrefixes (j : Nat) : List Int :=
+  match j with
+  | 0 => [0]
+  | 1 => [0, 1]
+  | 2 => [0, 1, 2]
+  | 3 => [3]
+  | 4 => [3, 4]
+  | _ => [5]
+
+def allFacets : List Int := [0, 1, 2, 3, 4, 5]
+
+structure DocSpec where
+  f : Option Int
+  k : Option (List Int)
+  c : Option (List Int)          -- candidates (prefix-expanded)
+
+def docSpec? (toks : List String) : Option DocSpec :=
+  match toks with
+  | f :: k :: c :: _ => do
+    let f ← optDash f
+    let k ← optDash k
+    let c ← optDash c
+    let kws := k.map (fun m => (List.range 5).filterMap (fun i =>
+      if (m.toNat >>> i) % 2 = 1 then some (Int.ofNat i) else none))
+    let cs := c.map (fun c =>
+      let n := c.toNat
+      facetPrefixes (n % 6) ++ (if n ≥ 7 then facetPrefixes ((n / 7) % 6) else []))
+    pure { f := f, k := kws, c := cs }
+  | _ => none
+where
+  optDash (t : String) : Option (Option Int) := if t = "-" then some none else (t.toInt?).map some
+
+/-- one catalog operation on the three modelled indexes of one transaction -/
+def applyOp (thr : Nat) (x : FTx Int × KTx Int × KTx Int) (toks : List String) :
+    Option (FTx Int × KTx Int × KTx Int) :=
+  let (f, k, c) := x
+  let cfg : KCfg := { thr := thr }
+  match toks with
+  | op :: d :: spec =>
+    match d.toInt? with
+    | none => none
+    | some d =>
+      if op = "unindex" then
+        some (f.unindexDoc d, k.unindexDoc d, c.unindexDoc d)
+      else if op = "index" ∨ op = "reindex" then
+        match docSpec? spec with
+        | some s => some (f.indexDoc d s.f, KTx.indexDoc cfg k d s.k, KTx.facetIndexDoc allFacets c d s.c)
+        | none => none
+      else none
+  | _ => none
+
+def showSet (l : List Int) : String := showIdSet l
+
+def showPairs (l : List (Int × String)) : String :=
+  let keys := sortInts (l.map (·.1))
+  "[" ++ " ".intercalate (keys.map (fun k => s!"{k}:{(l.lookup k).getD "?"}")) ++ "]"
+
+def obsF (h : FHeap Int) : String :=
+  let rev := showPairs (h.rev.map (fun e => (e.1, toString e.2)))
+  let fwd := showPairs (h.fwd.map (fun e => (e.1, showSet (h.posting e.1))))
+  s!"i0 rev={rev} ni={showSet h.ni} len={h.len} fwd={fwd}"
+
+def obsK (name : String) (h : KHeap Int) : String :=
+  let rev := showPairs (h.rev.map (fun e => (e.1, ",".intercalate ((sortInts e.2).map toString))))
+  let fwd := showPairs (h.fwd.map (fun e => (e.1, showSet (h.posting e.1))))
+  s!"{name} rev={rev} ni={showSet h.ni} fwd={fwd} inv={if h.len = h.rev.length then 1 else 0}"
+
+def showObj : ObjId → String
+  | .fwd => "fwd" | .rev => "rev" | .ni => "ni" | .len => "len"
+  | .post o => s!"post({o.1},{o.2})"
+
+/-- which objects refuse to merge (diagnostics) -/
+def conflictsF (base : FHeap Int) (a b : FTx Int) : List String :=
+  let chk (o : ObjId) (r : Option Unit) : List String := if r.isNone then [showObj o] else []
+  chk .fwd ((mergeObj resolveMap (dirty a.writes .fwd) (dirty b.writes .fwd) base.fwd a.heap.fwd b.heap.fwd).map fun _ => ()) ++
+  chk .rev ((mergeObj resolveMap (dirty a.writes .rev) (dirty b.writes .rev) base.rev a.heap.rev b.heap.rev).map fun _ => ()) ++
+  chk .ni ((mergeObj resolveSet (dirty a.writes .ni) (dirty b.writes .ni) base.ni a.heap.ni b.heap.ni).map fun _ => ()) ++
+  base.post.flatMap (fun e =>
+    chk (.post e.1) ((mergeObj resolveSet (dirty a.writes (.post e.1)) (dirty b.writes (.post e.1)) e.2
+      ((AMap.get a.heap.post e.1).getD e.2) ((AMap.get b.heap.post e.1).getD e.2)).map fun _ => ()))
+
+def conflictsK (base : KHeap Int) (a b : KTx Int) : List String :=
+  let chk (o : ObjId) (r : Option Unit) : List String := if r.isNone then [showObj o] else []
+  chk .fwd ((mergeObj resolveMap (dirty a.writes .fwd) (dirty b.writes .fwd) base.fwd a.heap.fwd b.heap.fwd).map fun _ => ()) ++
+  chk .rev ((mergeObj resolveMap (dirty a.writes .rev) (dirty b.writes .rev) base.rev a.heap.rev b.heap.rev).map fun _ => ()) ++
+  chk .ni ((mergeObj resolveSet (dirty a.writes .ni) (dirty b.writes .ni) base.ni a.heap.ni b.heap.ni).map fun _ => ()) ++
+  base.post.flatMap (fun e =>
+    chk (.post e.1) ((mergeObj resolvePosting (dirty a.writes (.post e.1)) (dirty b.writes (.post e.1)) e.2
+      ((AMap.get a.heap.post e.1).getD e.2) ((AMap.get b.heap.post e.1).getD e.2)).map fun _ => ()))
+
+/-- the transactions in commit order -/
+def ordered (st : St) : Option ((FTx Int × KTx Int × KTx Int) × (FTx Int × KTx Int × KTx Int)) :=
+  match st.log.order with
+  | [.a, .b] => some ((st.fA, st.kA, st.cA), (st.fB, st.kB, st.cB))
+  | [.b, .a] => some ((st.fB, st.kB, st.cB), (st.fA, st.kA, st.cA))
+  | _ => none
+
+/-- object-level outcome of the second commit: conflicting objects per present index, or the merged heaps -/
+def merged (st : St) : Option (List String × String × String) :=
+  match ordered st with
+  | none => none
+  | some ((f1, k1, c1), (f2, k2, c2)) =>
+    let has (n : String) : Bool := st.present.contains n
+    let mf := commitSecond st.f0.heap f1 f2
+    let mk := commitSecondK st.k0.heap k1 k2
+    let mc := commitSecondK st.c0.heap c1 c2
+    let confl :=
+      (if has "i0" ∧ mf.isNone then (conflictsF st.f0.heap f1 f2).map ("i0:" ++ ·) else []) ++
+      (if has "i1" ∧ mk.isNone then (conflictsK st.k0.heap k1 k2).map ("i1:" ++ ·) else []) ++
+      (if has "i2" ∧ mc.isNone then (conflictsK st.c0.heap c1 c2).map ("i2:" ++ ·) else [])
+    let both := " ;; ".intercalate (
+      (if has "i0" then [match mf with | some h => obsF h | none => "i0 conflict"] else []) ++
+      (if has "i1" then [match mk with | some h => obsK "i1" h | none => "i1 conflict"] else []) ++
+      (if has "i2" then [match mc with | some h => obsK "i2" h | none => "i2 conflict"] else []))
+    let first := " ;; ".intercalate (
+      (if has "i0" then [obsF f1.heap] else []) ++
+      (if has "i1" then [obsK "i1" k1.heap] else []) ++
+      (if has "i2" then [obsK "i2" c1.heap] else []))
+    some (confl, both, first)
+
+def showLoc : Loc Int → String
+  | .fwd v => s!"fwd[{v}]" | .rev d => s!"rev[{d}]" | .ni d => s!"ni[{d}]" | .len => "len"
+  | .post o d => s!"post({o.1},{o.2})[{d}]" | .whole o => s!"post({o.1},{o.2})[*]"
+
+def withOp (st : St) (who : String) (toks : List String) : Option St :=
+  match who with
+  | "base" => (applyOp st.thr (st.f0, st.k0, st.c0) toks).map fun (f, k, c) => { st with f0 := f, k0 := k, c0 := c }
+  | "a" => (applyOp st.thr (st.fA, st.kA, st.cA) toks).map fun (f, k, c) => { st with fA := f, kA := k, cA := c }
+  | "b" => (applyOp st.thr (st.fB, st.kB, st.cB) toks).map fun (f, k, c) => { st with fB := f, kB := k, cB := c }
+  | _ => none
+
+def addLog (st : St) (who : String) (k : Nat) : St :=
+  match who with
+  | "base" => { st with log := { st.log with base := st.log.base ++ [k] } }
+  | "a" => { st with log := { st.log with opsA := st.log.opsA ++ [k] } }
+  | _ => { st with log := { st.log with opsB := st.log.opsB ++ [k] } }
+
+def commitLine (st : St) : String :=
+  if st.log.order.length < 2 then "any"
+  else match merged st with
+    | some (confl, _, _) => if confl = [] then "any" else "conflict " ++ ",".intercalate confl ++ " ## any"
+    | none => "any"
+
+def step (st : St) (toks : List String) : St × String :=
+  match toks with
+  | ["cfg", "thr", n] => match n.toNat? with | some n => ({ st with thr := n }, "ok") | none => (st, "bad-op")
+  | "cfg" :: "present" :: ps => ({ st with present := ps }, "ok")
+  | "cfg" :: _ => (st, "ok")
+  | ["begin"] =>
+    ({ st with begun := true,
+               fA := FTx.start st.f0.heap 1, fB := FTx.start st.f0.heap 2,
+               kA := KTx.start st.k0.heap 1, kB := KTx.start st.k0.heap 2,
+               cA := KTx.start st.c0.heap 1, cB := KTx.start st.c0.heap 2 }, "ok")
+  | ["commit", "a"] => let st := { st with log := { st.log with order := st.log.order ++ [.a] } }; (st, commitLine st)
+  | ["commit", "b"] => let st := { st with log := { st.log with order := st.log.order ++ [.b] } }; (st, commitLine st)
+  | ["check"] =>
+    let l := st.log
+    let eff := "eff " ++ " ; ".intercalate [alt l true true, alt l true false, alt l false true, alt l false false]
+    let obj := match merged st with
+      | some (_, both, first) => " @@ " ++ both ++ " @@ " ++ first
+      | none => ""
+    (st, eff ++ obj)
+  | ["footprint", who] =>      -- diagnostics: the write sets of a transaction
+    let (f, k, c) := if who = "a" then (st.fA, st.kA, st.cA) else (st.fB, st.kB, st.cB)
+    (st, "i0 " ++ " ".intercalate (f.writes.reverse.map showLoc) ++ " ;; i1 " ++
+         " ".intercalate (k.writes.reverse.map showLoc) ++ " ;; i2 " ++ " ".intercalate (c.writes.reverse.map showLoc))
+  | who :: k :: rest =>
+    if who = "base" ∨ who = "a" ∨ who = "b" then
+      match k.toNat? with
+      | none => (st, "bad-op")
+      | some k =>
+        let st := addLog st who k
+        match rest with
+        | [] => (st, "ok")                       -- abstract log only (old replays)
+        | _ => match withOp st who rest with
+          | some st' => (st', "ok")
+          | none => (st, "bad-op")
+    else (st, "bad-op")
+  | _ => (st, "bad-op")
+
+def sess : Sess := { σ := St, st := {}, step := step }
 end Driver.ConcurrencyS
